@@ -163,11 +163,18 @@ func (e *Enc) note(format string, args ...any) {
 // get returns the current term for a state key, declaring the entry version
 // on demand.
 func (e *Enc) get(st *State, key, sort string) Term {
+	stateSorts[key] = sort
 	if t, ok := st.m[key]; ok {
 		return t
 	}
 	name := key + "@entry"
-	e.B.declTop(name, fmt.Sprintf("(declare-const %s %s)", name, sort))
+	decl := fmt.Sprintf("(declare-const %s %s)", name, sort)
+	switch key {
+	case "ghost.sends", "ghost.nilsends", "ghost.recvs", "ghost.closes":
+		// event counters start non-negative
+		decl += fmt.Sprintf("\n(assert (forall ((c Int)) (! (>= (select %s c) 0) :pattern ((select %s c)))))", name, name)
+	}
+	e.B.declTop(name, decl)
 	return name
 }
 
